@@ -147,6 +147,83 @@ class ModuleInfo:
         return "<module %s>" % self.name
 
 
+class _MatchDesugar(ast.NodeTransformer):
+    """`match` statements over literal patterns are if/elif chains: they are rewritten when a module is loaded, so
+    that every analysis (CFG, syntactic walks, the small interpreters) sees the one form.
+
+    Supported: value patterns (`case "x"`, `case NS.CONST`), `None/True/False`, or-patterns of those, the wildcard,
+    a bare capture name, guards.  The subject is evaluated once (bound to a temporary unless it is a plain name or
+    attribute chain).  Any other pattern (class, sequence, mapping) is left in place and stays an unmodelled
+    statement for the CFG builder."""
+
+    _n = 0
+
+    def visit_Match(self, node: "ast.Match"):
+        self.generic_visit(node)
+        subj = node.subject
+        pre: List[ast.stmt] = []
+        pure = isinstance(subj, ast.Name) or (isinstance(subj, ast.Attribute) and dotted(subj) is not None)
+        if not pure:
+            _MatchDesugar._n += 1
+            tmp = "__match_%d" % _MatchDesugar._n
+            pre.append(ast.copy_location(ast.Assign(targets=[ast.Name(id=tmp, ctx=ast.Store())], value=subj, lineno=node.lineno), node))
+            subj = ast.Name(id=tmp, ctx=ast.Load())
+
+        def test_of(pat):
+            """(test expression | None for irrefutable, [binding statements]) or raises ValueError."""
+            if isinstance(pat, ast.MatchValue):
+                return ast.Compare(left=subj, ops=[ast.Eq()], comparators=[pat.value]), []
+            if isinstance(pat, ast.MatchSingleton):
+                return ast.Compare(left=subj, ops=[ast.Is()], comparators=[ast.Constant(value=pat.value)]), []
+            if isinstance(pat, ast.MatchOr):
+                vals = []
+                for q in pat.patterns:
+                    if isinstance(q, ast.MatchValue):
+                        vals.append(q.value)
+                    else:
+                        t_, b_ = test_of(q)
+                        if t_ is None or b_:
+                            raise ValueError
+                        vals = None
+                        break
+                if vals is not None:
+                    return ast.Compare(left=subj, ops=[ast.In()], comparators=[ast.Tuple(elts=vals, ctx=ast.Load())]), []
+                return ast.BoolOp(op=ast.Or(), values=[test_of(q)[0] for q in pat.patterns]), []
+            if isinstance(pat, ast.MatchAs):
+                if pat.pattern is None:
+                    if pat.name is None:
+                        return None, []
+                    return None, [ast.Assign(targets=[ast.Name(id=pat.name, ctx=ast.Store())], value=subj, lineno=node.lineno)]
+                t_, b_ = test_of(pat.pattern)
+                if pat.name is not None:
+                    b_ = b_ + [ast.Assign(targets=[ast.Name(id=pat.name, ctx=ast.Store())], value=subj, lineno=node.lineno)]
+                return t_, b_
+            raise ValueError
+
+        try:
+            arms = []
+            for c in node.cases:
+                t, binds = test_of(c.pattern)
+                if c.guard is not None:
+                    if binds:
+                        raise ValueError      # a guard that reads the captured name: binding order matters
+                    t = c.guard if t is None else ast.BoolOp(op=ast.And(), values=[t, c.guard])
+                arms.append((t, binds + list(c.body)))
+        except ValueError:
+            return node
+        chain: List[ast.stmt] = []
+        for t, body in reversed(arms):
+            if t is None:
+                chain = body
+            else:
+                chain = [ast.If(test=t, body=body, orelse=chain)]
+        out = pre + (chain or [ast.Pass()])
+        for st in out:
+            ast.copy_location(st, node)
+            ast.fix_missing_locations(st)
+        return out
+
+
 def walk_local(fnode: ast.AST) -> Iterable[ast.AST]:
     """Walk a function body without descending into nested defs/lambdas/classes."""
     todo = list(ast.iter_child_nodes(fnode))
@@ -256,6 +333,7 @@ class Program:
                     tree = ast.parse(source, filename=rel)
                 except SyntaxError as e:
                     raise AnalysisError("cannot parse %s: %s" % (rel, e))
+                tree = _MatchDesugar().visit(tree)
                 mod = ModuleInfo(modname, path, rel, tree, source)
                 self.modules[modname] = mod
         for mod in self.modules.values():
